@@ -19,7 +19,7 @@ def gen_scenario(rng, faulty=False, fine_pct=35, nreq_max=2):
     sc["acc"] = {
         "acse": rng.choice([t, 2 * t]), "dimse": rng.choice([t, 2 * t]), "network": rng.choice([t, 3 * t]),
         "max_pdu": rng.choice([0, 128, 1024, 16382]),
-        "echo_act": rng.choice(["none", "none", "none", "abort", "release", "sleep"]),
+        "echo_act": rng.choice(["none", "none", "none", "abort", "release", "sleep", "sleep_abort", "sleep_release"]),
         "echo_sleep": rng.choice([0.001, 0.01, t * 1.5]),
         "find_k": rng.randrange(0, 4),
         "find_sleep": rng.choice([0.0, 0.002]),
@@ -33,7 +33,7 @@ def gen_scenario(rng, faulty=False, fine_pct=35, nreq_max=2):
         ops = []
         for _ in range(nops):
             o = rng.choice(["echo", "echo", "store", "find", "sleep", "release", "abort", "release_abort",
-                            "abort_release", "echo_abort"])
+                            "abort_release", "echo_abort", "echo_release"])
             d = {"op": o}
             if o == "store":
                 d["size"] = rng.choice([0, 100, 3000])
@@ -41,8 +41,11 @@ def gen_scenario(rng, faulty=False, fine_pct=35, nreq_max=2):
                 d["consume"] = rng.randrange(0, 5)
             if o == "sleep":
                 d["d"] = rng.choice([0.001, 0.01, t * 0.5, t * 1.2, t * 4])
-            if o in ("release_abort", "abort_release", "release_release", "echo_abort"):
+            if o in ("release_abort", "abort_release", "release_release", "echo_abort", "echo_release"):
                 d["gap"] = rng.choice([0.0, 0.0, 0.0002, 0.001])
+            if o in ("echo_release", "echo_abort") and rng.randrange(2):
+                d["gap"] = 0.0
+                d["gap2"] = rng.choice([0.0005, 0.002, 0.005])
             ops.append(d)
         final = rng.choice(["release", "release", "abort", "leave"])
         if final == "leave" and any(o["op"] == "find" for o in ops):
@@ -149,6 +152,10 @@ def execute(sc, ctx):
             event.assoc.release()
         elif act == "sleep":
             ctx.sleep(acc["echo_sleep"])
+        elif act in ("sleep_abort", "sleep_release"):
+            # give the peer time to get something else onto the wire (a release request, say) before ending it here
+            ctx.sleep(acc["echo_sleep"])
+            getattr(event.assoc, act[6:])()
         return 0x0000
 
     def on_store(event):
@@ -280,10 +287,16 @@ def _do_op(ctx, ae, assoc, op):
         elif o == "shutdown_ae":
             ae.shutdown()
             ctx.servers[:] = [s for s in ctx.servers if s in ae._servers]
-        elif o in ("release_abort", "abort_release", "release_release", "echo_abort"):
+        elif o in ("release_abort", "abort_release", "release_release", "echo_abort", "echo_release"):
             first, second = {"release_abort": ("release", "abort"), "abort_release": ("abort", "release"),
-                             "release_release": ("release", "release"), "echo_abort": ("echo", "abort")}[o]
-            th = ctx.spawn(lambda: _do_op(ctx, ae, assoc, {"op": second}), "user2:%s" % ctx.label(assoc))
+                             "release_release": ("release", "release"), "echo_abort": ("echo", "abort"),
+                             "echo_release": ("echo", "release")}[o]
+            def second_thread():
+                if op.get("gap2"):
+                    ctx.sleep(op["gap2"])     # let the first action get going (its request on the wire) first
+                _do_op(ctx, ae, assoc, {"op": second})
+
+            th = ctx.spawn(second_thread, "user2:%s" % ctx.label(assoc))
             if op.get("gap"):
                 ctx.sleep(op["gap"])
             _do_op(ctx, ae, assoc, {"op": first})
@@ -337,7 +350,10 @@ def check_single_outcome(pid, r, skip=()):
             out.append(C.v("single-outcome", "%s/still-established/%s" % (pid, role), "%s: is_established still true at the end: %s" % (lab, st)))
         # Signatures are per *pair* of distinct reporting sites (event kind @ function that reported it), so that
         # a triple report is the union of its pairs and the space of signatures stays small and narrow.
-        pairs_ = sorted(set((a, b) for i, a in enumerate(tevo) for b in tevo[i + 1:]))
+        # ... and say when both reports of a pair came from one and the same thread (no race between threads
+        # involved: that thread simply reported twice)
+        tl = sorted(("%s@%s" % (h["evt"][4:], h.get("origin")), h["tid"]) for h in tevh)
+        pairs_ = sorted(set((a, b + ("/same-thread" if ta == tb else "")) for i, (a, ta) in enumerate(tl) for (b, tb) in tl[i + 1:]))
         if len(flags) > 1:
             want = set(f.upper() for f in flags)
             fp = [(a, b) for a, b in pairs_ if {a.split("@")[0], b.split("@")[0]} == want] or [("+".join(tevo),)]
